@@ -37,6 +37,9 @@ type c02Case struct {
 	Idx     int    `json:"idx"`     // position the variant applies to
 	Bit     int    `json:"bit"`
 	Extra   int    `json:"extra"` // number of unrelated other inputs/outputs
+	// Primed: the properly signed transaction has been validated before (when it entered the pool, and
+	// in a block), then the variant arrives in a block (ValidateTxs)
+	Primed bool `json:"primed,omitempty"`
 }
 
 var c02Variants = []string{"correct", "correct", "flip-sig-bit", "truncate-sig", "sig-plus-group-order", "sig-r-other-encoding", "sig-other-message", "sig-other-key", "alter-key-or-script",
@@ -70,6 +73,7 @@ func c02Gen(t *rapid.T) c02Case {
 	c.Idx = rapid.IntRange(0, 5).Draw(t, "idx")
 	c.Bit = rapid.IntRange(0, 511).Draw(t, "bit")
 	c.Extra = rapid.IntRange(0, 2).Draw(t, "extra")
+	c.Primed = rapid.Bool().Draw(t, "primed")
 	return c
 }
 
@@ -156,6 +160,10 @@ func c02Exec(c c02Case, x *pbt.Ctx) error {
 		tail = [][]byte{append([]byte(nil), script...)}
 	}
 	idx := c.Idx % len(sigs)
+	var goodArgs [][]byte
+	for _, a := range append(append([][]byte{}, sigs...), tail...) {
+		goodArgs = append(goodArgs, append([]byte(nil), a...))
+	}
 	final := tx
 	switch c.Variant {
 	case "correct":
@@ -268,7 +276,24 @@ func c02Exec(c c02Case, x *pbt.Ctx) error {
 	x.NonTrivial = c.Variant != "correct" || c.N >= 3
 
 	block := &bc.Block{BlockHeader: &bc.BlockHeader{Version: 1, Height: 5}}
-	_, verr := validation.ValidateTx(final.Tx, block, func([]byte) ([]byte, error) { return nil, fmt.Errorf("no contracts") })
+	conv := func([]byte) ([]byte, error) { return nil, fmt.Errorf("no contracts") }
+	if c.Primed {
+		good := build(4000000000, []byte{0x51}, 0, 777)
+		good.SetInputArguments(0, goodArgs)
+		if _, err := validation.ValidateTx(good.Tx, block, conv); err != nil {
+			return fmt.Errorf("%s lock, %d-of-%d, signers %v: the properly signed transaction is refused: %v", c.Lock, c.M, c.N, c.Subset, err)
+		}
+		if r := validation.ValidateTxs([]*bc.Tx{good.Tx}, block, conv); len(r) != 1 || r[0].GetError() != nil {
+			return fmt.Errorf("%s lock, %d-of-%d, signers %v: the properly signed transaction is refused in a block", c.Lock, c.M, c.N, c.Subset)
+		}
+		x.Class("primed")
+	}
+	_, verr := validation.ValidateTx(final.Tx, block, conv)
+	if res := validation.ValidateTxs([]*bc.Tx{final.Tx}, block, conv); len(res) != 1 || res[0] == nil {
+		return fmt.Errorf("ValidateTxs returned no result for a one-transaction batch")
+	} else if (res[0].GetError() == nil) != (verr == nil) {
+		return fmt.Errorf("%s lock, %d-of-%d, signers %v, variant %s (primed %v): ValidateTx reports %v, the block path ValidateTxs reports %v for the same transaction", c.Lock, c.M, c.N, c.Subset, c.Variant, c.Primed, verr, res[0].GetError())
+	}
 	accepted := verr == nil
 	if accepted {
 		x.Class("accepted")
@@ -286,6 +311,6 @@ func c02Exec(c c02Case, x *pbt.Ctx) error {
 }
 
 func TestC02(t *testing.T) {
-	pbt.Run(t, "C02", "keys from generated seeds, m-of-n up to 6; outputs locked by P2WPKH, P2WSH(multisig) and the raw multisig program, spent by a transaction with 0-2 other inputs/outputs; witness variants: correct (any m-subset in key order), one signature bit flipped / truncated / over another message / by a foreign key, key or redeem script altered in one bit, duplicated, reversed, one signature missing, an extra argument, no witness, and a correct witness kept while a committed field (output amount, output program, time range, another input) changes; oracle: accept => the witness holds m valid signatures (crypto/ed25519) by distinct committed keys over H(inputID||txID) and the key/script hashes to the committed value; correct in-order witness => accept; non-trivial = any non-correct variant or n >= 3",
+	pbt.Run(t, "C02", "keys from generated seeds, m-of-n up to 6; outputs locked by P2WPKH, P2WSH(multisig) and the raw multisig program, spent by a transaction with 0-2 other inputs/outputs; witness variants: correct (any m-subset in key order), one signature bit flipped / truncated / over another message / by a foreign key, key or redeem script altered in one bit, duplicated, reversed, one signature missing, an extra argument, no witness, and a correct witness kept while a committed field (output amount, output program, time range, another input) changes; oracle: accept => the witness holds m valid signatures (crypto/ed25519) by distinct committed keys over H(inputID||txID) and the key/script hashes to the committed value; correct in-order witness => accept; in half of the cases the properly signed transaction was validated before (alone and in a batch) and the variant is then judged on both paths, ValidateTx and the block path ValidateTxs, which must agree; non-trivial = any non-correct variant or n >= 3",
 		pbt.Options{Checks: pbt.Per(10000, 600000), MinClass: map[string]int{"accepted": 300, "refused": 1000}}, c02Gen, c02Exec)
 }
